@@ -27,10 +27,13 @@ fn cfg_for(_id: &str, tier: Tier) -> GenCfg {
   c.lambda_this_in_generic_class = !excluded(id, "lambda_this_in_generic_class");
   c.lambda_this_in_enum_class = !excluded(id, "lambda_this_in_enum_class");
   c.fn_typed_field_in_generic_class = !excluded(id, "fn_typed_field_in_generic_class");
+  c.fuel_in_base_case = !excluded(id, "fuel_in_base_case");
+  c.effects_in_rec_call_args = !excluded(id, "effects_in_rec_call_args");
+  c.derived_induction_args = !excluded(id, "derived_induction_args");
   // these are ON only when no recorded finding asks for exclusion *and* the property wants them
   c.string_escapes = false;
   c.non_ascii_strings = false;
-  c.wide_vec_ints = false;
+  c.wide_vec_ints = !excluded(id, "wide_vec_ints");
   c
 }
 
@@ -53,7 +56,12 @@ fn g1_nontrivial(feats: &[String], printed: usize) -> bool {
 fn repo_cases() -> Vec<Value> {
   // every tests/*.sam module that has a `class Main` with `function main` is an entry point of the
   // whole tests.* program
-  let mods = crate::model::front::repo_test_modules();
+  let mut mods = crate::model::front::repo_test_modules();
+  for m in mods.iter_mut() {
+    // tests.Benchmark recurses 20 000 000 levels (a loop after tail-call rewriting); the reference
+    // interpreter has no tail calls, so the comparison uses a smaller n with the same property
+    m.1 = m.1.replace("let bigNum = 20000000;", "let bigNum = 6014;");
+  }
   let mut out = vec![];
   for (name, text) in &mods {
     if text.contains("class Main") && text.contains("function main(") {
@@ -93,7 +101,7 @@ impl Prop for C01 {
   }
   fn params(&self, tier: Tier) -> Params {
     match tier {
-      Tier::Quick => Params { cases: 3_000, tape_len: 1500, workers: 14, stack_mb: 64, worker_timeout_s: 1500, shrink_iters: 600 },
+      Tier::Quick => Params { cases: 12_000, tape_len: 1500, workers: 14, stack_mb: 64, worker_timeout_s: 1500, shrink_iters: 600 },
       Tier::Thorough => Params { cases: 80_000, tape_len: 4000, workers: 16, stack_mb: 64, worker_timeout_s: 5 * 3600, shrink_iters: 600 },
     }
   }
@@ -137,6 +145,9 @@ impl Prop for C01 {
         let w = &x.wasm;
         if w.end == "infra" {
           return Outcome::discarded("INFRA:node-worker-died");
+        }
+        if matches!(w.end.as_str(), "compile-error" | "link-error") {
+          return Outcome::discarded("module-not-instantiable(C03)");
         }
         let detail = |what: &str| format!("{what}\nreference: end={} lines={:?}\nwasm:      end={} lines={:?}\n{}", end_str(&reference.end), short_lines(&reference.lines), exec_str(w), short_lines(&w.lines), describe(&mods));
         if w.lines != reference.lines {
@@ -183,7 +194,7 @@ impl Prop for C04 {
   }
   fn params(&self, tier: Tier) -> Params {
     match tier {
-      Tier::Quick => Params { cases: 3_000, tape_len: 1500, workers: 14, stack_mb: 64, worker_timeout_s: 1500, shrink_iters: 600 },
+      Tier::Quick => Params { cases: 12_000, tape_len: 1500, workers: 14, stack_mb: 64, worker_timeout_s: 1500, shrink_iters: 600 },
       Tier::Thorough => Params { cases: 80_000, tape_len: 4000, workers: 16, stack_mb: 64, worker_timeout_s: 5 * 3600, shrink_iters: 600 },
     }
   }
@@ -224,6 +235,9 @@ impl Prop for C04 {
         let (w, t) = (&x.wasm, x.ts.as_ref().unwrap());
         if w.end == "infra" || t.end == "infra" {
           return Outcome::discarded("INFRA:node-worker-died");
+        }
+        if matches!(w.end.as_str(), "compile-error" | "link-error") || t.end == "syntax-error" {
+          return Outcome::discarded("artefact-not-loadable(C03)");
         }
         let detail = |what: &str| format!("{what}\nreference: end={}\nwasm: end={} lines={:?}\nts:   end={} lines={:?}\n{}", end_str(&reference.end), exec_str(w), short_lines(&w.lines), exec_str(t), short_lines(&t.lines), describe(&mods));
         if w.lines != t.lines {
